@@ -735,3 +735,23 @@ def all_paths_err(body, start, avoid=()):
             # (forwarding another function's Result) -- caller decides; report False conservatively
             return False
     return True
+
+
+def deep_call_names(body, op, depth=3):
+    """names of all calls a value derives from, also looking into the arguments of non-transparent calls"""
+    seen = set()
+    todo = [(op, 0)]
+    while todo:
+        o_, d = todo.pop()
+        o = origin(body, o_)
+        for c in o.calls:
+            seen.add(cname(c))
+        for a in o.atoms:
+            if a[0] == 'call':
+                seen.add(a[1])
+        if d < depth:
+            for c in o.calls:
+                if not transparent(c):
+                    for arg in c.get('args', []):
+                        todo.append((arg, d + 1))
+    return seen
